@@ -173,7 +173,7 @@ func TestC17(t *testing.T) {
 	if r.Only < 0 {
 		smoke(t, r, dir)
 	}
-	r.Require("uploads_checked", "failed_uploads", "retries_after_failure", "idle_periods_checked", "cancellations_checked", "uploads_with_write_during_window", "timelines", "suppressed_uploads_without_change", "uploads_hanging_past_the_limit", "timelines_on_reopened_database")
+	r.Require("uploads_checked", "failed_uploads", "retries_after_failure", "idle_periods_checked", "cancellations_checked", "uploads_with_write_during_window", "timelines", "suppressed_uploads_without_change", "uploads_hanging_past_the_limit", "timelines_on_reopened_database", "lone_activations", "lone_version_deletions")
 	r.Rule("seeded timelines of ~20 events over virtual hours: sleep d in {0,1s,30s,59s,60s,61s,5min,1h}, bursts of 1-3 real database writes (put/activate/delete), endpoint mode switches (ok / 403 not retryable / 500 retryable / hold for d with a write landing inside the held upload), then a quiet tail, an idle hour and cancellation at a random point of the minute cycle. Distinct = (endpoint mode at upload, writes during window?, outcome) and the smoke case through server.New")
 }
 
@@ -234,7 +234,37 @@ func timeline(t *testing.T, r *evid.Run, dir string, idx int) {
 			wmu.Lock()
 			defer wmu.Unlock()
 			// a snapshot after EVERY single save: the loop may read the file between any two of them
-			switch rng.IntN(4) {
+			before, _ := os.ReadFile(path)
+			switch rng.IntN(7) {
+			case 4:
+				// an activation on its own (the last write for a while may well be one): switch "seed" to another of its versions
+				if in, err := kdb.Info(su, "seed"); err == nil && len(in.Versions) >= 2 {
+					for _, v := range in.Versions {
+						if v != in.ActiveVersion {
+							kdb.Activate(su, "seed", v)
+							r.Count("lone_activations", 1)
+							break
+						}
+					}
+				} else {
+					kdb.Put(su, "seed", []byte(fmt.Sprintf("seed-%d-%d", idx, nput)))
+				}
+			case 5:
+				// a version removed, nothing else
+				if in, err := kdb.Info(su, "seed"); err == nil && len(in.Versions) >= 2 {
+					for _, v := range in.Versions {
+						if v != in.ActiveVersion {
+							kdb.DeleteVersion(su, "seed", v)
+							r.Count("lone_version_deletions", 1)
+							break
+						}
+					}
+				} else {
+					kdb.Put(su, "seed", []byte(fmt.Sprintf("seed-%d-%d", idx, nput)))
+				}
+			case 6:
+				// a whole secret removed, nothing else
+				kdb.Delete(su, fmt.Sprintf("k%d", rng.IntN(4)))
 			case 0:
 				kdb.Activate(su, "seed", 1)
 				takeSnap()
@@ -247,7 +277,9 @@ func timeline(t *testing.T, r *evid.Run, dir string, idx int) {
 				kdb.Put(su, fmt.Sprintf("k%d", rng.IntN(4)), []byte(fmt.Sprintf("v-%d-%d", idx, nput)))
 			}
 			nput++
-			writes = append(writes, time.Since(t0))
+			if after, _ := os.ReadFile(path); !bytes.Equal(before, after) { // (deleting what is not there writes nothing)
+				writes = append(writes, time.Since(t0))
+			}
 			takeSnap()
 		}
 		write = func() { writeWith(rng) }
